@@ -1,18 +1,44 @@
 (* C14 — I/O faults are reported, never swallowed.
-   PROVED (read side, saltpack's own adaptors): for every fragmentation of the
+   PROVED, READ side (saltpack's own adaptors): for every fragmentation of the
    underlying reader and every caller buffer sizes, an error of the underlying reader
    — delivered alone or together with data — is what ends the adaptor's stream: never a
    clean end instead, never before the data that preceded it, and nothing but source
-   bytes is handed on.  PARTIAL (campaign only, see DESIGN.md): the write side (sticky
-   error fields of encrypt/sign/signcrypt/basex/armor encoder streams and go-codec's
-   encoder) and the composed decode stacks are decided by exhaustive fault enumeration
-   — a fault at EVERY underlying Write/Read call of a fault-free run — not by a theorem.
+   bytes is handed on.
+   PROVED, WRITE side (block "write side" below; lemmas of proofs/WriteFaultProofs.v, about the specification functions
+   that GoAstProofs5a/5b/5d/6a/6b tie to the translated Go source of the six encoding streams: encryptStream,
+   signAttachedStream, signDetachedStream, signcryptSealStream, the base-X stream encoder, the armor encoder stream):
+   - NO SILENT LOSS, all six streams: along ANY sequence of calls in which every call (constructor/init included) returned
+     nil, the writer took exactly the complete message.  Hypothesis on the writer: for the four packet streams the
+     encoder step (what presenting one packet to the msgpack encoder does) is HONEST-OR-FAILING ([honest]: a step that
+     reports success has taken exactly the packet; nothing is assumed about a step that reports an error); for base-X and
+     armor the writer is the concrete logging writer of GoAstProofs5b with an ARBITRARY error schedule.
+   - ERROR RETURNED AT ONCE, all six: a call during which the writer reports an error returns a non-nil error (packet
+     streams: on the instrumented step [logged]; base-X / armor: nil IFF every schedule entry used was nil).
+   - STICKY: encryptStream.Write, signcryptSealStream.Write; the base-X encoder's and (with the fix of /repo/armor.go: field
+     s.err) the armor stream's Write AND Close.
+   - "Close never reports success for a message that was not completely written" (theorems ..._no_nil_close_after_error,
+     ..._close_nil_all_nil, ..._close_nil_complete):
+       for the ARMOR stream and the BASE-X encoder it holds with NO hypothesis beyond the honest (logging) writer: the
+       stickiness is their own (C14_write_ar_close_nil_complete; C14_write_bx_error_sticks);
+       for encryptStream, signcryptSealStream, signAttachedStream it is NOT a property of saltpack's own code (their Close
+       does not read err / there is no err field: the Examples ex_..._close_after_failed_write of WriteFaultProofs.v) and holds UNDER THE
+       HYPOTHESIS that the encoder step is STICKY ([sticky_step]: once it has reported an error it reports one on every
+       later call).  go-codec's Encoder behaves so (it stores its first error); it is MODELLED, not translated: [codec s]
+       is that sticky encoder put in front of an arbitrary step s (C14_write_codec_sticky / _honest);
+       signDetachedStream needs no hypothesis (Write makes no step, Close one);
+       the three armored sender STACKS (packet stream over [codec] over the armor stream over the base-X encoder over a
+       logging writer with any schedule): the three C14_write_..stack_close_nil_complete.
+   NOT a theorem (campaign only, see DESIGN.md): go-codec's encoder itself (only its sticky behaviour is modelled, as the
+   [codec] step; how it cuts a packet into Write calls is not), the detached signer over the armor stream, what happens
+   after a Close that SUCCEEDED, and the composed decode stacks — these are decided by exhaustive fault enumeration (a
+   fault at EVERY underlying Write/Read call of a fault-free run).
    Only property theorems here. *)
 From Coq Require Import List NArith ZArith.
 From Coq.Strings Require Import Byte.
 From SP Require Import Bytes Errors Armor Streams StreamProofs FaultProofs.
 From Coq Require String.
 From SP Require BaseX GoLang GoLang2 GoAst GoAstEnc GoAstProofs5b.
+From SP Require Params Crypto Rand Encodings GoAstProofs5a GoAstProofs5d GoAstProofs6a GoAstProofs6b WriteFaultProofs.
 Import ListNotations.
 
 Theorem C14_punctuated_reader_reports_fault (s : source) (sizes : list nat) (done : list bytes) (cur : bytes) (e : err) :
@@ -77,6 +103,604 @@ Theorem C14_source_encoder_Close_sticky (o : gobj) (x : String.string) (F : nat)
 Proof. exact (go_encoder_Close_sticky en K Hibl HK o x F). Qed.
 End C14_source.
 
+
+(* ---- WRITE SIDE: the six encoding streams and the armored sender stacks, lemmas of proofs/WriteFaultProofs.v ---- *)
+(* Vocabulary (definitions of WriteFaultProofs.v; the specification functions es_*, sas_*, sds_*, sss_*, gw_*, ga_* are those
+   that GoAstProofs5a/6a/6b/5b/5d prove equal to the translated Go methods).
+   [step] = gval -> bytes -> gval * gerr: what presenting ONE packet to the encoder object does (new object, error).
+   [honest written s]: s o pkt = (o', None) -> written o' = written o ++ pkt.   [sticky_step broken s]: a step that reports an
+   error leaves a broken object; on a broken object every step reports an error.   [codec s]: go-codec's sticky encoder in
+   front of s.   [logged s] / [instr] / [saw_error]: the step instrumented with a flag "has reported an error".
+   [op] = OpWrite p | OpClose; [run call st ops] runs the calls one after the other on the receiver as each call leaves it,
+   ALSO after an error, and collects what they return ([Ret e]; [Halt] = a panic ends the run); [X.session ...] = constructor /
+   init, then run; [session_ops pieces] = Write p1; ..; Write pn; Close; [all_nil outs]: every entry is Ret None.
+   [mem_enc]: the never-failing in-memory writer (its object is the bytes written so far).
+   Base-X / armor: the writer is GoAstProofs5b.wr (log of the calls made + schedule of the errors to return);
+   [Bx.written_log w] = concatenation of the log.  [Ar.ast]: the armor stream object (encoder object, pending characters,
+   words, writer, the sticky error s.err); [Ar.ar_run footer] = run of Ar.call = ar_write / ar_close. *)
+Section C14_write.
+Import Params Crypto Rand BaseX Encodings GoLang GoLang2 GoAstProofs5b GoAstProofs5d WriteFaultProofs.
+
+(* -- encryptStream (/repo/encrypt.go) -- *)
+(* encryptStream, NO SILENT LOSS: init, then ANY sequence of Write / Close calls; if every call returned nil, the
+   never-failing in-memory instance returns nil on the same calls and ends in the same object, its encoder holding exactly
+   the bytes the writer took.  Hypothesis: the step is honest-or-failing.  Nothing on version, keys, sizes, randomness. *)
+Theorem C14_write_es_no_silent_loss (c : crypto) (written : gval -> bytes) (s : step) (w0 : gval) (v v' : version)
+        (sender : option bytes) (rcpts : list Encrypt.rcpt) (ra rb rc : rng)
+        (ops : list op) (outs : list outc) (st' : GoAstProofs5a.es_state) :
+  honest written s ->
+  Enc.session c s (Enc.fresh v' w0) v sender rcpts ra rb rc ops = (outs, st') ->
+  all_nil outs ->
+  Enc.session c GoAstProofs5a.mem_enc (Enc.fresh v' (VBytes (written w0))) v sender rcpts ra rb rc ops =
+  (outs, GoAstProofs5a.set_enc st' (VBytes (written (GoAstProofs5a.es_enc st')))).
+Proof. exact (Enc.es_no_silent_loss c written s w0 v v' sender rcpts ra rb rc ops outs st'). Qed.
+(* the same for Write p1; ..; Write pn; Close on a writer that held nothing: the writer took the complete message (what the
+   in-memory instance produces) *)
+Theorem C14_write_es_no_silent_loss_pieces (c : crypto) (written : gval -> bytes) (s : step) (w0 : gval) (v : version)
+        (sender : option bytes) (rcpts : list Encrypt.rcpt) (ra rb rc : rng)
+        (pieces : list bytes) (outs : list outc)
+        (st' : GoAstProofs5a.es_state) :
+  honest written s ->
+  written w0 = [] ->
+  Enc.session c s (Enc.fresh v w0) v sender rcpts ra rb rc (session_ops pieces) = (outs, st') ->
+  all_nil outs ->
+  exists stm : GoAstProofs5a.es_state,
+    Enc.session c GoAstProofs5a.mem_enc (Enc.fresh v (VBytes [])) v sender rcpts ra rb rc (session_ops pieces) =
+    (outs, stm) /\ GoAstProofs5a.es_enc stm = VBytes (written (GoAstProofs5a.es_enc st')).
+Proof. exact (Enc.es_no_silent_loss_pieces c written s w0 v sender rcpts ra rb rc pieces outs st'). Qed.
+(* ERROR RETURNED AT ONCE (Write): run on the instrumented step from an object whose flag is down; if the step reported an
+   error during the call (flag up afterwards), Write returned a non-nil error.  No other hypothesis. *)
+Theorem C14_write_es_write_reports (c : crypto) (s : step) (st : GoAstProofs5a.es_state) (o : gval) (p : bytes) (n : Z)
+        (e : GoAstProofs5a.gerr) (st' : GoAstProofs5a.es_state) :
+  GoAstProofs5a.es_enc st = instr o ->
+  GoAstProofs5a.es_write c (logged s) st p = GoAstProofs5a.WRet n e st' ->
+  saw_error (GoAstProofs5a.es_enc st') = true -> e <> None.
+Proof. exact (Enc.es_write_reports c s st o p n e st'). Qed.
+(* ... the same for Close *)
+Theorem C14_write_es_close_reports (c : crypto) (s : step) (st : GoAstProofs5a.es_state) (o : gval)
+        (e : GoAstProofs5a.gerr) (st' : GoAstProofs5a.es_state) :
+  GoAstProofs5a.es_enc st = instr o ->
+  GoAstProofs5a.es_close c (logged s) st = GoAstProofs5a.CloseRet e st' ->
+  saw_error (GoAstProofs5a.es_enc st') = true -> e <> None.
+Proof. exact (Enc.es_close_reports c s st o e st'). Qed.
+(* ... and for init (the header packet) *)
+Theorem C14_write_es_init_reports (c : crypto) (s : step) (st : GoAstProofs5a.es_state) (o : gval) (v : version)
+        (sender : option bytes) (rcpts : list Encrypt.rcpt) (ra rb rc : rng)
+        (e : GoAstProofs5a.gerr) (st' : GoAstProofs5a.es_state) (ra' rb' rc' : rng) :
+  GoAstProofs5a.es_enc st = instr o ->
+  GoAstProofs5a.es_init c (logged s) st v sender rcpts ra rb rc = GoAstProofs5a.IRet e st' ra' rb' rc' ->
+  saw_error (GoAstProofs5a.es_enc st') = true -> e <> None.
+Proof. exact (Enc.es_init_reports c s st o v sender rcpts ra rb rc e st' ra' rb' rc'). Qed.
+(* STICKY: with s.err = e set, every Write of any run returns e; Close calls in between do not clear it.  No hypothesis. *)
+Theorem C14_write_es_sticky (c : crypto) (s : step) (e : String.string * list gval) (ops : list op)
+        (st : GoAstProofs5a.es_state) (outs : list outc) (st' : GoAstProofs5a.es_state) :
+  GoAstProofs5a.es_err st = Some e ->
+  run (Enc.call c s) st ops = (outs, st') ->
+  writes_return (Some e) ops outs /\ GoAstProofs5a.es_err st' = Some e.
+Proof. exact (Enc.es_sticky c s e ops st outs st'). Qed.
+(* a Write that returned an error has set it: every later Write returns it, consuming nothing *)
+Theorem C14_write_es_write_error_sticks (c : crypto) (s : step) (st : GoAstProofs5a.es_state) (p : bytes) (n : Z)
+        (e : String.string * list gval) (st1 : GoAstProofs5a.es_state)
+        (ops : list op) (outs : list outc) (st' : GoAstProofs5a.es_state) :
+  GoAstProofs5a.es_write c s st p = GoAstProofs5a.WRet n (Some e) st1 ->
+  run (Enc.call c s) st1 ops = (outs, st') ->
+  writes_return (Some e) ops outs /\
+  (forall q : bytes, GoAstProofs5a.es_write c s st1 q = GoAstProofs5a.WRet 0 (Some e) st1).
+Proof. exact (Enc.es_write_error_sticks c s st p n e st1 ops outs st'). Qed.
+(* C14 AS WORDED, under the STICKY-ENCODER hypothesis (sticky_step: what go-codec's encoder does): in any run, after a call
+   that returned an error no later Close returns nil.  Hypotheses: sticky_step broken s; Enc.Inv on the starting object
+   (err = nil, or the encoder broken / the counter exhausted: true after init). *)
+Theorem C14_write_es_no_nil_close_after_error (c : crypto) (s : step) (broken : gval -> Prop) :
+  sticky_step broken s ->
+  forall (st : GoAstProofs5a.es_state) (ops : list op) (outs : list outc) (st' : GoAstProofs5a.es_state)
+    (i j : nat) (e : String.string * list gval),
+  Enc.Inv broken st ->
+  run (Enc.call c s) st ops = (outs, st') ->
+  (i < j)%nat ->
+  nth_error outs i = Some (Ret (Some e)) ->
+  nth_error ops j = Some OpClose -> nth_error outs j <> Some (Ret None).
+Proof. exact (Enc.es_no_nil_close_after_error c s broken). Qed.
+(* init; Write*; Close all made and the final Close returned nil ==> every call returned nil.  Hypothesis: sticky_step. *)
+Theorem C14_write_es_close_nil_all_nil (c : crypto) (broken : gval -> Prop) (s : step) (st0 : GoAstProofs5a.es_state)
+        (v : version) (sender : option bytes) (rcpts : list Encrypt.rcpt)
+        (ra rb rc : rng) (pieces : list bytes) (outs : list outc)
+        (st' : GoAstProofs5a.es_state) :
+  sticky_step broken s ->
+  GoAstProofs5a.es_err st0 = None ->
+  Enc.session c s st0 v sender rcpts ra rb rc (session_ops pieces) = (outs, st') ->
+  length outs = S (S (length pieces)) -> last outs (Halt String.EmptyString) = Ret None -> all_nil outs.
+Proof. exact (Enc.es_close_nil_all_nil c broken s st0 v sender rcpts ra rb rc pieces outs st'). Qed.
+(* ... and, with an honest step and a writer that held nothing, the writer took the complete message *)
+Theorem C14_write_es_close_nil_complete (c : crypto) (written : gval -> bytes) (broken : gval -> Prop) (s : step)
+        (w0 : gval) (v : version) (sender : option bytes)
+        (rcpts : list Encrypt.rcpt) (ra rb rc : rng) (pieces : list bytes)
+        (outs : list outc) (st' : GoAstProofs5a.es_state) :
+  honest written s ->
+  sticky_step broken s ->
+  written w0 = [] ->
+  Enc.session c s (Enc.fresh v w0) v sender rcpts ra rb rc (session_ops pieces) = (outs, st') ->
+  length outs = S (S (length pieces)) ->
+  last outs (Halt String.EmptyString) = Ret None ->
+  all_nil outs /\
+  (exists stm : GoAstProofs5a.es_state,
+     Enc.session c GoAstProofs5a.mem_enc (Enc.fresh v (VBytes [])) v sender rcpts ra rb rc (session_ops pieces) =
+     (outs, stm) /\ GoAstProofs5a.es_enc stm = VBytes (written (GoAstProofs5a.es_enc st'))).
+Proof. exact (Enc.es_close_nil_complete c written broken s w0 v sender rcpts ra rb rc pieces outs st'). Qed.
+
+(* -- signAttachedStream (/repo/sign_stream.go) -- *)
+(* signAttachedStream (F = loop turns of the evaluator, any F): NO SILENT LOSS, as for encryptStream *)
+Theorem C14_write_sas_no_silent_loss (c : crypto) (F : nat) (written : gval -> bytes) (s : step) (w0 : gval)
+        (v : version) (signer : option bytes) (r : rng) (ops : list op)
+        (outs : list outc) (st' : option GoAstProofs6a.sas_state) :
+  honest written s ->
+  SignA.session c F s v w0 signer r ops = (outs, st') ->
+  all_nil outs ->
+  exists st1 : GoAstProofs6a.sas_state,
+    st' = Some st1 /\
+    SignA.session c F GoAstProofs6a.mem_enc v (VBytes (written w0)) signer r ops =
+    (outs, Some (GoAstProofs6a.set_enc st1 (VBytes (written (GoAstProofs6a.sas_enc st1))))).
+Proof. exact (SignA.sas_no_silent_loss c F written s w0 v signer r ops outs st'). Qed.
+Theorem C14_write_sas_no_silent_loss_pieces (c : crypto) (F : nat) (written : gval -> bytes) (s : step) (w0 : gval)
+        (v : version) (signer : option bytes) (r : rng)
+        (pieces : list bytes) (outs : list outc)
+        (st' : option GoAstProofs6a.sas_state) :
+  honest written s ->
+  written w0 = [] ->
+  SignA.session c F s v w0 signer r (session_ops pieces) = (outs, st') ->
+  all_nil outs ->
+  exists st1 stm : GoAstProofs6a.sas_state,
+    st' = Some st1 /\
+    SignA.session c F GoAstProofs6a.mem_enc v (VBytes []) signer r (session_ops pieces) = (outs, Some stm) /\
+    GoAstProofs6a.sas_enc stm = VBytes (written (GoAstProofs6a.sas_enc st1)).
+Proof. exact (SignA.sas_no_silent_loss_pieces c F written s w0 v signer r pieces outs st'). Qed.
+(* ERROR RETURNED AT ONCE: Write, Close, constructor (if a stream is returned, the flag is down) *)
+Theorem C14_write_sas_write_reports (c : crypto) (F : nat) (s : step) (st : GoAstProofs6a.sas_state) (o : gval)
+        (p : bytes) (n : Z) (e : GoAstProofs6a.gerr)
+        (st' : GoAstProofs6a.sas_state) :
+  GoAstProofs6a.sas_enc st = instr o ->
+  GoAstProofs6a.sas_write c (logged s) F st p = GoAstProofs6a.WRet n e st' ->
+  saw_error (GoAstProofs6a.sas_enc st') = true -> e <> None.
+Proof. exact (SignA.sas_write_reports c F s st o p n e st'). Qed.
+Theorem C14_write_sas_close_reports (c : crypto) (s : step) (st : GoAstProofs6a.sas_state) (o : gval)
+        (e : GoAstProofs6a.gerr) (st' : GoAstProofs6a.sas_state) :
+  GoAstProofs6a.sas_enc st = instr o ->
+  GoAstProofs6a.sas_close c (logged s) st = GoAstProofs6a.CloseRet e st' ->
+  saw_error (GoAstProofs6a.sas_enc st') = true -> e <> None.
+Proof. exact (SignA.sas_close_reports c s st o e st'). Qed.
+Theorem C14_write_sas_new_reports (c : crypto) (s : step) (v : version) (o : gval) (signer : option bytes) (r : rng)
+        (st : GoAstProofs6a.sas_state) :
+  SignA.new_state c (logged s) v (instr o) signer r = (Ret None, Some st) ->
+  saw_error (GoAstProofs6a.sas_enc st) = false.
+Proof. exact (SignA.sas_new_reports c s v o signer r st). Qed.
+(* signAttachedStream has no err field: after an error, the property rests on the sticky encoder alone.  Hypothesis: sticky_step. *)
+Theorem C14_write_sas_no_nil_close_after_error (c : crypto) (F : nat) (s : step) (broken : gval -> Prop) :
+  sticky_step broken s ->
+  forall (st : GoAstProofs6a.sas_state) (ops : list op) (outs : list outc) (st' : GoAstProofs6a.sas_state)
+    (i j : nat) (e : String.string * list gval),
+  run (SignA.call c F s) st ops = (outs, st') ->
+  (i < j)%nat ->
+  nth_error outs i = Some (Ret (Some e)) ->
+  nth_error ops j = Some OpClose -> nth_error outs j <> Some (Ret None).
+Proof. exact (SignA.sas_no_nil_close_after_error c F s broken). Qed.
+Theorem C14_write_sas_close_nil_all_nil (c : crypto) (F : nat) (broken : gval -> Prop) (s : step) (w0 : gval)
+        (v : version) (signer : option bytes) (r : rng) (pieces : list bytes)
+        (outs : list outc) (st' : option GoAstProofs6a.sas_state) :
+  sticky_step broken s ->
+  SignA.session c F s v w0 signer r (session_ops pieces) = (outs, st') ->
+  length outs = S (S (length pieces)) -> last outs (Halt String.EmptyString) = Ret None -> all_nil outs.
+Proof. exact (SignA.sas_close_nil_all_nil c F broken s w0 v signer r pieces outs st'). Qed.
+Theorem C14_write_sas_close_nil_complete (c : crypto) (F : nat) (written : gval -> bytes) (broken : gval -> Prop)
+        (s : step) (w0 : gval) (v : version) (signer : option bytes) (r : rng)
+        (pieces : list bytes) (outs : list outc)
+        (st' : option GoAstProofs6a.sas_state) :
+  honest written s ->
+  sticky_step broken s ->
+  written w0 = [] ->
+  SignA.session c F s v w0 signer r (session_ops pieces) = (outs, st') ->
+  length outs = S (S (length pieces)) ->
+  last outs (Halt String.EmptyString) = Ret None ->
+  all_nil outs /\
+  (exists st1 stm : GoAstProofs6a.sas_state,
+     st' = Some st1 /\
+     SignA.session c F GoAstProofs6a.mem_enc v (VBytes []) signer r (session_ops pieces) = (outs, Some stm) /\
+     GoAstProofs6a.sas_enc stm = VBytes (written (GoAstProofs6a.sas_enc st1))).
+Proof. exact (SignA.sas_close_nil_complete c F written broken s w0 v signer r pieces outs st'). Qed.
+
+(* -- signDetachedStream (/repo/sign_stream.go) -- *)
+(* signDetachedStream: NO SILENT LOSS *)
+Theorem C14_write_sds_no_silent_loss (c : crypto) (written : gval -> bytes) (s : step) (w0 : gval) (v : version)
+        (signer : option bytes) (r : rng) (ops : list op) (outs : list outc)
+        (st' : option GoAstProofs6a.sds_state) :
+  honest written s ->
+  SignD.session c s v w0 signer r ops = (outs, st') ->
+  all_nil outs ->
+  exists st1 : GoAstProofs6a.sds_state,
+    st' = Some st1 /\
+    SignD.session c GoAstProofs6a.mem_enc v (VBytes (written w0)) signer r ops =
+    (outs, Some (SignD.set_enc st1 (VBytes (written (GoAstProofs6a.sds_enc st1))))).
+Proof. exact (SignD.sds_no_silent_loss c written s w0 v signer r ops outs st'). Qed.
+(* Close returns exactly the error of its one step (the signature packet); Write makes no step; the constructor *)
+Theorem C14_write_sds_close_reports (c : crypto) (s : step) (st : GoAstProofs6a.sds_state) :
+  fst (SignD.call c s st OpClose) = Ret (snd (s (GoAstProofs6a.sds_enc st) (SignD.sds_sig_packet c st))).
+Proof. exact (SignD.sds_close_reports c s st). Qed.
+Theorem C14_write_sds_write_no_step (c : crypto) (s : step) (st : GoAstProofs6a.sds_state) (p : bytes) :
+  fst (SignD.call c s st (OpWrite p)) = Ret None /\
+  GoAstProofs6a.sds_enc (snd (SignD.call c s st (OpWrite p))) = GoAstProofs6a.sds_enc st.
+Proof. exact (SignD.sds_write_no_step c s st p). Qed.
+Theorem C14_write_sds_new_reports (c : crypto) (s : step) (v : version) (o : gval) (signer : option bytes) (r : rng)
+        (st : GoAstProofs6a.sds_state) :
+  SignD.new_state c (logged s) v (instr o) signer r = (Ret None, Some st) ->
+  saw_error (GoAstProofs6a.sds_enc st) = false.
+Proof. exact (SignD.sds_new_reports c s v o signer r st). Qed.
+(* the final Close returned nil ==> every call returned nil.  NO hypothesis on the step. *)
+Theorem C14_write_sds_close_nil_all_nil (c : crypto) (s : step) (v : version) (w0 : gval) (signer : option bytes)
+        (r : rng) (pieces : list bytes) (outs : list outc)
+        (st' : option GoAstProofs6a.sds_state) :
+  SignD.session c s v w0 signer r (session_ops pieces) = (outs, st') ->
+  length outs = S (S (length pieces)) -> last outs (Halt String.EmptyString) = Ret None -> all_nil outs.
+Proof. exact (SignD.sds_close_nil_all_nil c s v w0 signer r pieces outs st'). Qed.
+
+(* -- signcryptSealStream (/repo/signcrypt_seal.go) -- *)
+(* signcryptSealStream: NO SILENT LOSS *)
+Theorem C14_write_sss_no_silent_loss (c : crypto) (written : gval -> bytes) (s : step) (w0 : gval)
+        (signer : option bytes) (boxes : list bytes) (syms : list (bytes * bytes))
+        (ra rk rb : bytes) (ops : list op) (outs : list outc)
+        (st' : GoAstProofs6b.sss_state) :
+  honest written s ->
+  Sc.session c s (Sc.fresh w0 signer) boxes syms ra rk rb ops = (outs, st') ->
+  all_nil outs ->
+  Sc.session c GoAstProofs6b.mem_enc (Sc.fresh (VBytes (written w0)) signer) boxes syms ra rk rb ops =
+  (outs, GoAstProofs6b.set_enc st' (VBytes (written (GoAstProofs6b.ss_enc st')))).
+Proof. exact (Sc.sss_no_silent_loss c written s w0 signer boxes syms ra rk rb ops outs st'). Qed.
+Theorem C14_write_sss_no_silent_loss_pieces (c : crypto) (written : gval -> bytes) (s : step) (w0 : gval)
+        (signer : option bytes) (boxes : list bytes)
+        (syms : list (bytes * bytes)) (ra rk rb : bytes)
+        (pieces : list bytes) (outs : list outc)
+        (st' : GoAstProofs6b.sss_state) :
+  honest written s ->
+  written w0 = [] ->
+  Sc.session c s (Sc.fresh w0 signer) boxes syms ra rk rb (session_ops pieces) = (outs, st') ->
+  all_nil outs ->
+  exists stm : GoAstProofs6b.sss_state,
+    Sc.session c GoAstProofs6b.mem_enc (Sc.fresh (VBytes []) signer) boxes syms ra rk rb (session_ops pieces) =
+    (outs, stm) /\ GoAstProofs6b.ss_enc stm = VBytes (written (GoAstProofs6b.ss_enc st')).
+Proof. exact (Sc.sss_no_silent_loss_pieces c written s w0 signer boxes syms ra rk rb pieces outs st'). Qed.
+(* ERROR RETURNED AT ONCE: Write, Close, init *)
+Theorem C14_write_sss_write_reports (c : crypto) (s : step) (st : GoAstProofs6b.sss_state) (o : gval) (p : bytes)
+        (n : Z) (e : GoAstProofs6b.gerr) (st' : GoAstProofs6b.sss_state) :
+  GoAstProofs6b.ss_enc st = instr o ->
+  GoAstProofs6b.sss_write c (logged s) st p = GoAstProofs6b.WRet n e st' ->
+  saw_error (GoAstProofs6b.ss_enc st') = true -> e <> None.
+Proof. exact (Sc.sss_write_reports c s st o p n e st'). Qed.
+Theorem C14_write_sss_close_reports (c : crypto) (s : step) (st : GoAstProofs6b.sss_state) (o : gval)
+        (e : GoAstProofs6b.gerr) (st' : GoAstProofs6b.sss_state) :
+  GoAstProofs6b.ss_enc st = instr o ->
+  GoAstProofs6b.sss_close c (logged s) st = GoAstProofs6b.CloseRet e st' ->
+  saw_error (GoAstProofs6b.ss_enc st') = true -> e <> None.
+Proof. exact (Sc.sss_close_reports c s st o e st'). Qed.
+Theorem C14_write_sss_init_reports (c : crypto) (s : step) (st : GoAstProofs6b.sss_state) (o : gval)
+        (boxes : list bytes) (syms : list (bytes * bytes)) (ra rk rb : bytes)
+        (e : GoAstProofs6b.gerr) (st' : GoAstProofs6b.sss_state)
+        (ra' rk' rb' : bytes) :
+  GoAstProofs6b.ss_enc st = instr o ->
+  GoAstProofs6b.sss_init c (logged s) st boxes syms ra rk rb = GoAstProofs6b.IRet e st' ra' rk' rb' ->
+  saw_error (GoAstProofs6b.ss_enc st') = true -> e <> None.
+Proof. exact (Sc.sss_init_reports c s st o boxes syms ra rk rb e st' ra' rk' rb'). Qed.
+(* STICKY (Write only, as for encryptStream) *)
+Theorem C14_write_sss_sticky (c : crypto) (s : step) (e : String.string * list gval) (ops : list op)
+        (st : GoAstProofs6b.sss_state) (outs : list outc) (st' : GoAstProofs6b.sss_state) :
+  GoAstProofs6b.ss_err st = Some e ->
+  run (Sc.call c s) st ops = (outs, st') -> writes_return (Some e) ops outs /\ GoAstProofs6b.ss_err st' = Some e.
+Proof. exact (Sc.sss_sticky c s e ops st outs st'). Qed.
+Theorem C14_write_sss_write_error_sticks (c : crypto) (s : step) (st : GoAstProofs6b.sss_state) (p : bytes) (n : Z)
+        (e : String.string * list gval) (st1 : GoAstProofs6b.sss_state)
+        (ops : list op) (outs : list outc) (st' : GoAstProofs6b.sss_state) :
+  GoAstProofs6b.sss_write c s st p = GoAstProofs6b.WRet n (Some e) st1 ->
+  run (Sc.call c s) st1 ops = (outs, st') ->
+  writes_return (Some e) ops outs /\
+  (forall q : bytes, GoAstProofs6b.sss_write c s st1 q = GoAstProofs6b.WRet 0 (Some e) st1).
+Proof. exact (Sc.sss_write_error_sticks c s st p n e st1 ops outs st'). Qed.
+(* C14 as worded, under the sticky-encoder hypothesis *)
+Theorem C14_write_sss_no_nil_close_after_error (c : crypto) (s : step) (broken : gval -> Prop) :
+  sticky_step broken s ->
+  forall (st : GoAstProofs6b.sss_state) (ops : list op) (outs : list outc) (st' : GoAstProofs6b.sss_state)
+    (i j : nat) (e : String.string * list gval),
+  Sc.Inv broken st ->
+  run (Sc.call c s) st ops = (outs, st') ->
+  (i < j)%nat ->
+  nth_error outs i = Some (Ret (Some e)) ->
+  nth_error ops j = Some OpClose -> nth_error outs j <> Some (Ret None).
+Proof. exact (Sc.sss_no_nil_close_after_error c s broken). Qed.
+Theorem C14_write_sss_close_nil_all_nil (c : crypto) (broken : gval -> Prop) (s : step) (st0 : GoAstProofs6b.sss_state)
+        (boxes : list bytes) (syms : list (bytes * bytes)) (ra rk rb : bytes)
+        (pieces : list bytes) (outs : list outc)
+        (st' : GoAstProofs6b.sss_state) :
+  sticky_step broken s ->
+  GoAstProofs6b.ss_err st0 = None ->
+  Sc.session c s st0 boxes syms ra rk rb (session_ops pieces) = (outs, st') ->
+  length outs = S (S (length pieces)) -> last outs (Halt String.EmptyString) = Ret None -> all_nil outs.
+Proof. exact (Sc.sss_close_nil_all_nil c broken s st0 boxes syms ra rk rb pieces outs st'). Qed.
+Theorem C14_write_sss_close_nil_complete (c : crypto) (written : gval -> bytes) (broken : gval -> Prop) (s : step)
+        (w0 : gval) (signer : option bytes) (boxes : list bytes)
+        (syms : list (bytes * bytes)) (ra rk rb : bytes) (pieces : list bytes)
+        (outs : list outc) (st' : GoAstProofs6b.sss_state) :
+  honest written s ->
+  sticky_step broken s ->
+  written w0 = [] ->
+  Sc.session c s (Sc.fresh w0 signer) boxes syms ra rk rb (session_ops pieces) = (outs, st') ->
+  length outs = S (S (length pieces)) ->
+  last outs (Halt String.EmptyString) = Ret None ->
+  all_nil outs /\
+  (exists stm : GoAstProofs6b.sss_state,
+     Sc.session c GoAstProofs6b.mem_enc (Sc.fresh (VBytes []) signer) boxes syms ra rk rb (session_ops pieces) =
+     (outs, stm) /\ GoAstProofs6b.ss_enc stm = VBytes (written (GoAstProofs6b.ss_enc st'))).
+Proof. exact (Sc.sss_close_nil_complete c written broken s w0 signer boxes syms ra rk rb pieces outs st'). Qed.
+
+(* -- the base-X stream encoder (/repo/encoding/basex/stream.go) -- *)
+(* the base-X stream encoder over the logging writer (any schedule): NO SILENT LOSS - any calls, all nil ==> the writer holds
+   what it held followed by the model's writes (bxe_run).  Hypotheses: 0 < ibl, 1 <= K, gobj_ok, e.err = nil (NewEncoder). *)
+Theorem C14_write_bx_no_silent_loss (en : encoding) (K : nat) :
+  (0 < ibl_nat en)%nat ->
+  (1 <= K)%nat ->
+  forall (ops : list op) (o : gobj) (outs : list outc) (o' : gobj),
+  gobj_ok en K o ->
+  go_err o = None ->
+  run (Bx.call en K) o ops = (outs, o') ->
+  all_nil outs ->
+  Bx.written_log (go_w o') =
+  Bx.written_log (go_w o) ++ concat (Bx.bxe_run en (firstn (go_nbuf o) (go_buf o)) ops) /\
+  gobj_ok en K o' /\ go_err o' = None.
+Proof. exact (Bx.bx_no_silent_loss en K). Qed.
+(* NewEncoder; Write*; Close all nil ==> the writer holds the base-X encoding of the whole input *)
+Theorem C14_write_bx_no_silent_loss_pieces (en : encoding) (K : nat) :
+  (0 < ibl_nat en)%nat ->
+  (1 <= K)%nat ->
+  forall (w : wr) (pieces : list bytes) (outs : list outc) (o' : gobj),
+  run (Bx.call en K) (Bx.fresh en K w) (session_ops pieces) = (outs, o') ->
+  all_nil outs -> Bx.written_log (go_w o') = Bx.written_log w ++ encode en (concat pieces).
+Proof. exact (Bx.bx_no_silent_loss_pieces en K). Qed.
+(* ERROR RETURNED AT ONCE: a call uses j entries of the writer's schedule; it returns nil IFF all j were nil, and an error it
+   returns is one of them *)
+Theorem C14_write_bx_call_reports (en : encoding) (K : nat) :
+  (0 < ibl_nat en)%nat ->
+  (1 <= K)%nat ->
+  forall (o : gobj) (c : op),
+  gobj_ok en K o ->
+  go_err o = None ->
+  exists (j : nat) (erm : option String.string),
+    fst (Bx.call en K o c) = Ret (Bx.werr erm) /\
+    w_sched (go_w (snd (Bx.call en K o c))) = skipn j (w_sched (go_w o)) /\
+    (erm = None <-> Forall (fun x : option String.string => x = None) (firstn j (w_sched (go_w o)))) /\
+    (forall x : String.string, erm = Some x -> In (Some x) (firstn j (w_sched (go_w o)))).
+Proof. exact (Bx.bx_call_reports en K). Qed.
+(* STICKY, Write AND Close: with e.err set every call returns it and the object (the writer's log included) is unchanged *)
+Theorem C14_write_bx_sticky (en : encoding) (K : nat) (x : String.string) (ops : list op) (o : gobj) :
+  go_err o = Some x -> run (Bx.call en K) o ops = (map (fun _ : op => Ret (Bx.werr (Some x))) ops, o).
+Proof. exact (Bx.bx_sticky en K x ops o). Qed.
+(* a call that returned an error has set it *)
+Theorem C14_write_bx_error_sticks (en : encoding) (K : nat) :
+  (0 < ibl_nat en)%nat ->
+  (1 <= K)%nat ->
+  forall (o : gobj) (c : op) (x : String.string * list gval),
+  gobj_ok en K o ->
+  go_err o = None ->
+  fst (Bx.call en K o c) = Ret (Some x) ->
+  go_err (snd (Bx.call en K o c)) = Some (fst x) /\
+  (forall ops : list op,
+   run (Bx.call en K) (snd (Bx.call en K o c)) ops =
+   (map (fun _ : op => Ret (Some x)) ops, snd (Bx.call en K o c))).
+Proof. exact (Bx.bx_error_sticks en K). Qed.
+
+(* -- the armor encoder stream (/repo/armor.go with the sticky-error fix) -- *)
+(* the armor encoder stream (WITH the sticky-error fix) over the logging writer: NO SILENT LOSS - any calls with Close, if any,
+   last; all nil ==> the writer holds what it held followed by the model's output (ae_run).  Hypothesis: inv (what
+   newArmorEncoderStream establishes, s.err = nil included). *)
+Theorem C14_write_ar_no_silent_loss (footer : bytes) (ops : list op) (st : Ar.ast) (outs : list outc) (stf : Ar.ast) :
+  Ar.inv st ->
+  Ar.close_last ops ->
+  Ar.ar_run footer st ops = (outs, stf) ->
+  all_nil outs ->
+  Bx.written_log (Ar.a_w stf) = Bx.written_log (Ar.a_w st) ++ Ar.ae_run footer (Ar.model_of st) ops.
+Proof. exact (Ar.ar_no_silent_loss footer ops st outs stf). Qed.
+(* ... = Armor62Seal of the whole input when the writer held header ++ ". " *)
+Theorem C14_write_ar_no_silent_loss_pieces (footer header : bytes) (w : wr) (pieces : list bytes) (outs : list outc)
+        (stf : Ar.ast) :
+  Bx.written_log w = header ++ [dot; sp] ->
+  Ar.ar_run footer (Ar.fresh w) (session_ops pieces) = (outs, stf) ->
+  all_nil outs -> Bx.written_log (Ar.a_w stf) = armor_seal (concat pieces) header footer.
+Proof. exact (Ar.ar_no_silent_loss_pieces footer header w pieces outs stf). Qed.
+(* ERROR RETURNED AT ONCE: Write, Close *)
+Theorem C14_write_ar_write_reports (st : Ar.ast) (p : bytes) :
+  Ar.inv st ->
+  exists (j : nat) (er : option String.string),
+    fst (Ar.ar_write st p) = Ret (Bx.werr er) /\
+    w_sched (Ar.a_w (snd (Ar.ar_write st p))) = skipn j (w_sched (Ar.a_w st)) /\
+    (er = None <-> Forall (fun x : option String.string => x = None) (firstn j (w_sched (Ar.a_w st)))) /\
+    (forall x : String.string, er = Some x -> In (Some x) (firstn j (w_sched (Ar.a_w st)))).
+Proof. exact (Ar.ar_write_reports st p). Qed.
+Theorem C14_write_ar_close_reports (footer : bytes) (st : Ar.ast) :
+  Ar.inv st ->
+  exists (j : nat) (er : option String.string),
+    fst (Ar.ar_close footer st) = Ret (Bx.werr er) /\
+    w_sched (Ar.a_w (snd (Ar.ar_close footer st))) = skipn j (w_sched (Ar.a_w st)) /\
+    (er = None <-> Forall (fun x : option String.string => x = None) (firstn j (w_sched (Ar.a_w st)))) /\
+    (forall x : String.string, er = Some x -> In (Some x) (firstn j (w_sched (Ar.a_w st)))).
+Proof. exact (Ar.ar_close_reports footer st). Qed.
+(* STICKY (the fix), Write AND Close: with s.err set every call of any run returns it and leaves the object - the writer
+   included - untouched.  No hypothesis. *)
+Theorem C14_write_ar_sticky (footer : bytes) (x : String.string) (ops : list op) (st : Ar.ast) :
+  Ar.a_err st = Some x -> Ar.ar_run footer st ops = (map (fun _ : op => Ret (Bx.werr (Some x))) ops, st).
+Proof. exact (Ar.ar_sticky footer x ops st). Qed.
+(* a call, Write OR Close, that returned an error has stored it: the rest of any run returns that error and hands nothing more to
+   the writer.  NO hypothesis (any object, any writer). *)
+Theorem C14_write_ar_error_sticks (footer : bytes) (st : Ar.ast) (c : op) (x : String.string * list gval) :
+  fst (Ar.call footer st c) = Ret (Some x) ->
+  Ar.a_err (snd (Ar.call footer st c)) = Some (fst x) /\
+  (forall ops : list op,
+   Ar.ar_run footer (snd (Ar.call footer st c)) ops =
+   (map (fun _ : op => Ret (Some x)) ops, snd (Ar.call footer st c))).
+Proof. exact (Ar.ar_error_sticks footer st c x). Qed.
+(* the instance for a failed Close: a second Close, or a Write after it, returns the stored error *)
+Theorem C14_write_ar_close_error_sticks (footer : bytes) (st : Ar.ast) (x : String.string * list gval) :
+  fst (Ar.ar_close footer st) = Ret (Some x) ->
+  forall ops : list op,
+  Ar.ar_run footer (snd (Ar.ar_close footer st)) ops =
+  (map (fun _ : op => Ret (Some x)) ops, snd (Ar.ar_close footer st)).
+Proof. exact (Ar.ar_close_error_sticks footer st x). Qed.
+(* C14 AS WORDED, NO HYPOTHESIS: in any run of the armor stream, after a call that returned an error no later Close returns nil *)
+Theorem C14_write_ar_no_nil_close_after_error (footer : bytes) (ops : list op) (st : Ar.ast) (outs : list outc)
+        (stf : Ar.ast) :
+  Ar.ar_run footer st ops = (outs, stf) ->
+  forall (i j : nat) (e : String.string * list gval),
+  (i < j)%nat ->
+  nth_error outs i = Some (Ret (Some e)) ->
+  nth_error ops j = Some OpClose -> nth_error outs j <> Some (Ret None).
+Proof. exact (Ar.ar_no_nil_close_after_error footer ops st outs stf). Qed.
+(* Write*; Close: the final Close returned nil ==> every call returned nil.  No hypothesis. *)
+Theorem C14_write_ar_close_nil_all_nil (footer : bytes) (pieces : list bytes) (st : Ar.ast) (outs : list outc)
+        (stf : Ar.ast) :
+  Ar.ar_run footer st (session_ops pieces) = (outs, stf) ->
+  last outs (Halt String.EmptyString) = Ret None -> all_nil outs.
+Proof. exact (Ar.ar_close_nil_all_nil footer pieces st outs stf). Qed.
+(* NewArmor62EncoderStream (the writer holds header ++ ". "); Write p1; ..; Write pn; Close, any schedule of the writer: the final
+   Close returned nil ==> every call returned nil AND the writer holds exactly Armor62Seal (p1 ++ .. ++ pn).  Only
+   hypothesis: what the writer held at the start. *)
+Theorem C14_write_ar_close_nil_complete (footer header : bytes) (w : wr) (pieces : list bytes) (outs : list outc)
+        (stf : Ar.ast) :
+  Bx.written_log w = header ++ [dot; sp] ->
+  Ar.ar_run footer (Ar.fresh w) (session_ops pieces) = (outs, stf) ->
+  last outs (Halt String.EmptyString) = Ret None ->
+  all_nil outs /\ Bx.written_log (Ar.a_w stf) = armor_seal (concat pieces) header footer.
+Proof. exact (Ar.ar_close_nil_complete footer header w pieces outs stf). Qed.
+
+(* -- go-codec's encoder as a step -- *)
+(* [codec s], go-codec's encoder in front of ANY step s, is a sticky step, and honest if s is *)
+Theorem C14_write_codec_sticky (s : step) :
+  sticky_step codec_broken (codec s).
+Proof. exact (codec_sticky s). Qed.
+Theorem C14_write_codec_honest (written : gval -> bytes) (s : step) :
+  honest written s -> honest (codec_written written) (codec s).
+Proof. exact (codec_honest written s). Qed.
+
+(* -- the composed armored sender stacks -- *)
+(* THE COMPOSED STACKS (NewEncryptArmor62... : the packet stream, go-codec's encoder as the sticky [codec] step over ONE
+   armorEncoderStream.Write per packet, the base-X encoder, a logging writer with ANY schedule).  If init, Write p1; ..;
+   Write pn and Close of the packet stream were all made, that Close returned nil and the armor stream's Close returned
+   nil, then every call returned nil and the writer holds exactly Armor62Seal of the message the in-memory packet stream
+   produces.  Hypotheses: the writer held header ++ ". "; the final encoder object is [armor object; flag] and decodes. *)
+Theorem C14_write_stack_close_nil_complete (c : crypto) (header footer : bytes) (w0 : wr) (v : version)
+        (sender : option bytes) (rcpts : list Encrypt.rcpt) (ra rb rc : rng)
+        (pieces : list bytes) (outs : list outc)
+        (st' : GoAstProofs5a.es_state) (oa : gval) (b : bool)
+        (sta stf : Ar.ast) :
+  Bx.written_log w0 = header ++ [dot; sp] ->
+  Enc.session c (codec Comp.arm_step) (Enc.fresh v (codec_obj (Comp.g_ast (Ar.fresh w0)))) v sender rcpts ra rb
+    rc (session_ops pieces) = (outs, st') ->
+  length outs = S (S (length pieces)) ->
+  last outs (Halt String.EmptyString) = Ret None ->
+  GoAstProofs5a.es_enc st' = VList [oa; VBool b] ->
+  Comp.d_ast oa = Some sta ->
+  Ar.ar_close footer sta = (Ret None, stf) ->
+  all_nil outs /\
+  (exists (stm : GoAstProofs5a.es_state) (msg : bytes),
+     Enc.session c GoAstProofs5a.mem_enc (Enc.fresh v (VBytes [])) v sender rcpts ra rb rc (session_ops pieces) =
+     (outs, stm) /\
+     GoAstProofs5a.es_enc stm = VBytes msg /\ Bx.written_log (Ar.a_w stf) = armor_seal msg header footer).
+Proof. exact (Comp.stack_close_nil_complete c header footer w0 v sender rcpts ra rb rc pieces outs st' oa b sta stf). Qed.
+(* ... for the attached-signature stream (NewSignArmor62Stream) *)
+Theorem C14_write_sign_stack_close_nil_complete (c : crypto) (F : nat) (header footer : bytes) (w0 : wr) (v : version)
+        (signer : option bytes) (r : rng) (pieces : list bytes)
+        (outs : list outc) (st' : GoAstProofs6a.sas_state) (oa : gval)
+        (sta stf : Ar.ast) :
+  Bx.written_log w0 = header ++ [dot; sp] ->
+  SignA.session c F (codec Comp.arm_step) v (codec_obj (Comp.g_ast (Ar.fresh w0))) signer r (session_ops pieces) =
+  (outs, Some st') ->
+  length outs = S (S (length pieces)) ->
+  last outs (Halt String.EmptyString) = Ret None ->
+  GoAstProofs6a.sas_enc st' = VList [oa; VBool false] ->
+  Comp.d_ast oa = Some sta ->
+  Ar.ar_close footer sta = (Ret None, stf) ->
+  all_nil outs /\
+  (exists (stm : GoAstProofs6a.sas_state) (msg : bytes),
+     SignA.session c F GoAstProofs6a.mem_enc v (VBytes []) signer r (session_ops pieces) = (outs, Some stm) /\
+     GoAstProofs6a.sas_enc stm = VBytes msg /\ Bx.written_log (Ar.a_w stf) = armor_seal msg header footer).
+Proof. exact (Comp.sign_stack_close_nil_complete c F header footer w0 v signer r pieces outs st' oa sta stf). Qed.
+(* ... and for the signcryption stream (NewSigncryptArmor62SealStream) *)
+Theorem C14_write_signcrypt_stack_close_nil_complete (c : crypto) (header footer : bytes) (w0 : wr)
+        (signer : option bytes) (boxes : list bytes)
+        (syms : list (bytes * bytes)) (ra rk rb : bytes)
+        (pieces : list bytes) (outs : list outc)
+        (st' : GoAstProofs6b.sss_state) (oa : gval)
+        (sta stf : Ar.ast) :
+  Bx.written_log w0 = header ++ [dot; sp] ->
+  Sc.session c (codec Comp.arm_step) (Sc.fresh (codec_obj (Comp.g_ast (Ar.fresh w0))) signer) boxes syms ra rk
+    rb (session_ops pieces) = (outs, st') ->
+  length outs = S (S (length pieces)) ->
+  last outs (Halt String.EmptyString) = Ret None ->
+  GoAstProofs6b.ss_enc st' = VList [oa; VBool false] ->
+  Comp.d_ast oa = Some sta ->
+  Ar.ar_close footer sta = (Ret None, stf) ->
+  all_nil outs /\
+  (exists (stm : GoAstProofs6b.sss_state) (msg : bytes),
+     Sc.session c GoAstProofs6b.mem_enc (Sc.fresh (VBytes []) signer) boxes syms ra rk rb (session_ops pieces) =
+     (outs, stm) /\
+     GoAstProofs6b.ss_enc stm = VBytes msg /\ Bx.written_log (Ar.a_w stf) = armor_seal msg header footer).
+Proof. exact (Comp.signcrypt_stack_close_nil_complete c header footer w0 signer boxes syms ra rk rb pieces outs st' oa sta stf). Qed.
+End C14_write.
+
+Print Assumptions C14_write_es_no_silent_loss.
+Print Assumptions C14_write_es_no_silent_loss_pieces.
+Print Assumptions C14_write_es_write_reports.
+Print Assumptions C14_write_es_close_reports.
+Print Assumptions C14_write_es_init_reports.
+Print Assumptions C14_write_es_sticky.
+Print Assumptions C14_write_es_write_error_sticks.
+Print Assumptions C14_write_es_no_nil_close_after_error.
+Print Assumptions C14_write_es_close_nil_all_nil.
+Print Assumptions C14_write_es_close_nil_complete.
+Print Assumptions C14_write_sas_no_silent_loss.
+Print Assumptions C14_write_sas_no_silent_loss_pieces.
+Print Assumptions C14_write_sas_write_reports.
+Print Assumptions C14_write_sas_close_reports.
+Print Assumptions C14_write_sas_new_reports.
+Print Assumptions C14_write_sas_no_nil_close_after_error.
+Print Assumptions C14_write_sas_close_nil_all_nil.
+Print Assumptions C14_write_sas_close_nil_complete.
+Print Assumptions C14_write_sds_no_silent_loss.
+Print Assumptions C14_write_sds_close_reports.
+Print Assumptions C14_write_sds_write_no_step.
+Print Assumptions C14_write_sds_new_reports.
+Print Assumptions C14_write_sds_close_nil_all_nil.
+Print Assumptions C14_write_sss_no_silent_loss.
+Print Assumptions C14_write_sss_no_silent_loss_pieces.
+Print Assumptions C14_write_sss_write_reports.
+Print Assumptions C14_write_sss_close_reports.
+Print Assumptions C14_write_sss_init_reports.
+Print Assumptions C14_write_sss_sticky.
+Print Assumptions C14_write_sss_write_error_sticks.
+Print Assumptions C14_write_sss_no_nil_close_after_error.
+Print Assumptions C14_write_sss_close_nil_all_nil.
+Print Assumptions C14_write_sss_close_nil_complete.
+Print Assumptions C14_write_bx_no_silent_loss.
+Print Assumptions C14_write_bx_no_silent_loss_pieces.
+Print Assumptions C14_write_bx_call_reports.
+Print Assumptions C14_write_bx_sticky.
+Print Assumptions C14_write_bx_error_sticks.
+Print Assumptions C14_write_ar_no_silent_loss.
+Print Assumptions C14_write_ar_no_silent_loss_pieces.
+Print Assumptions C14_write_ar_write_reports.
+Print Assumptions C14_write_ar_close_reports.
+Print Assumptions C14_write_ar_sticky.
+Print Assumptions C14_write_ar_error_sticks.
+Print Assumptions C14_write_ar_close_error_sticks.
+Print Assumptions C14_write_ar_no_nil_close_after_error.
+Print Assumptions C14_write_ar_close_nil_all_nil.
+Print Assumptions C14_write_ar_close_nil_complete.
+Print Assumptions C14_write_codec_sticky.
+Print Assumptions C14_write_codec_honest.
+Print Assumptions C14_write_stack_close_nil_complete.
+Print Assumptions C14_write_sign_stack_close_nil_complete.
+Print Assumptions C14_write_signcrypt_stack_close_nil_complete.
 Print Assumptions C14_source_encoder_Write_sticky.
 Print Assumptions C14_source_encoder_Close_sticky.
 Print Assumptions C14_punctuated_reader_reports_fault.
